@@ -53,14 +53,17 @@ structure Kept (z z' : ZX) : Prop where
   ayReg : z'.ayReg = z.ayReg
   ayRegs : z'.ayRegs = z.ayRegs
 
+/-- `Kept` is reflexive -/
 theorem Kept.refl (z : ZX) : Kept z z := ⟨rfl, rfl, rfl, rfl, rfl, rfl, rfl, rfl, rfl, rfl, rfl, rfl, rfl, rfl⟩
 
+/-- `Kept` composes -/
 theorem Kept.trans {a b c : ZX} (h1 : Kept a b) (h2 : Kept b c) : Kept a c :=
   ⟨h2.kind.trans h1.kind, h2.pagingEnabled.trans h1.pagingEnabled, h2.screenBank.trans h1.screenBank,
    h2.latch.trans h1.latch, h2.panicked.trans h1.panicked, h2.map.trans h1.map, h2.rom.trans h1.rom,
    h2.kbd.trans h1.kbd, h2.earIn.trans h1.earIn, h2.border.trans h1.border, h2.ear.trans h1.ear,
    h2.mic.trans h1.mic, h2.ayReg.trans h1.ayReg, h2.ayRegs.trans h1.ayRegs⟩
 
+/-- a wait changes only the two clock fields of the controller -/
 theorem ctl_waitInternal_shape (c : Ctl) (k : Nat) :
     ∃ f p, c.waitInternal k = { c with frameClocks := f, passedFrames := p } := by
   unfold Ctl.waitInternal
@@ -68,6 +71,7 @@ theorem ctl_waitInternal_shape (c : Ctl) (k : Nat) :
   · exact ⟨_, _, rfl⟩
   · exact ⟨_, c.passedFrames, rfl⟩
 
+/-- a memory-side cycle (contention + clocks) changes only the two clock fields -/
 theorem ctl_waitMreq_shape (c : Ctl) (a : BitVec 16) (k : Nat) :
     ∃ f p, c.waitMreq a k = { c with frameClocks := f, passedFrames := p } := by
   unfold Ctl.waitMreq Ctl.doContention
@@ -78,6 +82,7 @@ theorem ctl_waitMreq_shape (c : Ctl) (a : BitVec 16) (k : Nat) :
     exact ⟨f2, p2, rfl⟩
   · exact ctl_waitInternal_shape c k
 
+/-- a memory-side cycle touches only clock and log -/
 theorem kept_waitMreq (a : BitVec 16) (k : Nat) (z : ZX) : Kept z (Bus.waitMreq a k z) := by
   obtain ⟨f, p, h⟩ := ctl_waitMreq_shape z.ctl a k
   have e : (Bus.waitMreq a k z : ZX) =
@@ -85,6 +90,7 @@ theorem kept_waitMreq (a : BitVec 16) (k : Nat) (z : ZX) : Kept z (Bus.waitMreq 
   rw [e, h]
   exact ⟨rfl, rfl, rfl, rfl, rfl, rfl, rfl, rfl, rfl, rfl, rfl, rfl, rfl, rfl⟩
 
+/-- address-less clocks touch only clock and log -/
 theorem kept_waitInternal (k : Nat) (z : ZX) : Kept z (Bus.waitInternal k z) := by
   obtain ⟨f, p, h⟩ := ctl_waitInternal_shape z.ctl k
   have e : (Bus.waitInternal k z : ZX) =
@@ -92,23 +98,30 @@ theorem kept_waitInternal (k : Nat) (z : ZX) : Kept z (Bus.waitInternal k z) := 
   rw [e, h]
   exact ⟨rfl, rfl, rfl, rfl, rfl, rfl, rfl, rfl, rfl, rfl, rfl, rfl, rfl, rfl⟩
 
+/-- a store touches RAM contents only (map and ROM stay) -/
 theorem kept_writeInternal (a : BitVec 16) (v : BitVec 8) (z : ZX) : Kept z (Bus.writeInternal a v z) :=
   ⟨rfl, rfl, rfl, rfl, rfl, write_map _ _ _, write_romdata _ _ _, rfl, rfl, rfl, rfl, rfl, rfl, rfl⟩
 
+/-- a timed read touches only clock and log -/
 theorem kept_read (a : BitVec 16) (k : Nat) (z : ZX) : Kept z (read a k z).2 := kept_waitMreq a k z
 
+/-- a timed store touches only clock, log and RAM contents -/
 theorem kept_write (a : BitVec 16) (v : BitVec 8) (k : Nat) (z : ZX) : Kept z (write a v k z) :=
   (kept_waitMreq a k z).trans (kept_writeInternal a v _)
 
+/-- a word read touches only clock and log -/
 theorem kept_readWord (a : BitVec 16) (k : Nat) (z : ZX) : Kept z (readWord a k z).2 :=
   (kept_read a k z).trans (kept_read (a + 1) k _)
 
+/-- a push touches only clock, log and RAM contents -/
 theorem kept_push16 (w : BitVec 16) (k : Nat) (s : Cpu) (z : ZX) : Kept z (push16 w k s z).2 :=
   (kept_write _ _ k z).trans (kept_write _ _ k _)
 
+/-- a pop touches only clock and log -/
 theorem kept_pop16 (k : Nat) (s : Cpu) (z : ZX) : Kept z (pop16 k s z).2.2 :=
   (kept_read _ k z).trans (kept_read _ k _)
 
+/-- the HALT line notification does nothing on the machine model -/
 theorem halt_if (s : Cpu) (z : ZX) : (if s.halted = true then Bus.halt false z else z) = z := by
   split <;> rfl
 
@@ -151,10 +164,12 @@ def im2Cycles (l : BitVec 8) (s : Cpu) : List (BitVec 8 × TOp) :=
 def im1Cycles (l : BitVec 8) (s : Cpu) : List (BitVec 8 × TOp) :=
   [(l, .mem (s.sp - 1) 3), (l, .mem (s.sp - 2) 3), (l, .plain 7)]
 
+/-- the documented IM 2 acknowledge cycles (Spec.docInt2) in their timed view are `im2Cycles` -/
 theorem im2Cycles_eq (l : BitVec 8) (s : Cpu) :
     timedOf l l (Spec.docInt2 s (mk16 s.i 0xFF)) = im2Cycles l s := by
   simp [Spec.docInt2, Spec.pushCycles, Spec.wr3, Spec.rd3, timedOf, im2Cycles]
 
+/-- the documented IM 0/1 acknowledge cycles (Spec.docInt01) in their timed view are `im1Cycles` -/
 theorem im1Cycles_eq (l : BitVec 8) (s : Cpu) : timedOf l l (Spec.docInt01 s) = im1Cycles l s := by
   simp [Spec.docInt01, Spec.pushCycles, Spec.wr3, timedOf, im1Cycles]
 
@@ -414,6 +429,7 @@ theorem no_int_after_ei_di_on_machine (s : Cpu) (z : ZX) (hap : s.activePrefix =
 
 /-! ## How often: whole frames between acceptances; `EI; HALT` is served exactly once per frame -/
 
+/-- total emulated time is monotone along a run -/
 theorem total_run_mono (a b : Nat) (s : Cpu) (z : ZX) (h : a ≤ b) :
     total (Z80.run .hw a (s, z)).2.ctl ≤ total (Z80.run .hw b (s, z)).2.ctl := by
   obtain ⟨d, rfl⟩ := Nat.le.dest h
@@ -799,6 +815,7 @@ def exampleZX : ZX :=
 def exampleCpu : Cpu :=
   { pc := 0x8001, sp := 0x9000, im := 2, i := 0xFF, iff1 := true, iff2 := true, halted := true }
 
+/-- the example machine is in a `Good` state -/
 theorem example_good : C04Sys.Good exampleZX.ctl := ⟨by decide, Or.inl ⟨rfl, rfl, rfl⟩⟩
 
 /-- the hypotheses of `im2_vector_on_machine` and `im2_vector_top_of_memory` are met -/
